@@ -30,7 +30,7 @@ ASSUMPTIONS = [
     "KF-TRANSFORM-MIXED-UNITS; it is not used as a fault",
 ]
 TOLERANCES = {"geometry": "1e-12 * S"}
-FAULT_TYPES = ["transform", "paint", "length", "points", "viewBox", "d", "stroke-width", "href-missing", "href-self", "href-ancestor", "href-cycle", "svg-zero"]
+FAULT_TYPES = ["transform", "paint", "length", "points", "viewBox", "d", "stroke-width", "href-missing", "href-self", "href-ancestor", "href-cycle", "svg-zero", "opacity"]
 MANDATORY_LABELS = {"quick": ["fault:%s" % f for f in FAULT_TYPES] + ["on:shape", "on:container", "on:use", "faults:1", "faults:2+", "offender-path-rendered"]}
 MANDATORY_LABELS["thorough"] = MANDATORY_LABELS["quick"]
 
@@ -47,25 +47,33 @@ for _name in ("matrix", "translate", "translateX", "translateY", "scale", "scale
 
 BAD = {
     "transform": _TRANSFORM_ARITIES + ["matrix(1,2,3)", "rotate(a)", "scale(", "!!!", "translate(1,,2)", "rotate()", "matrix(a,b,c,d,e,f)", "skewX()", "translate()", "scale()", "matrix()", "rotate(30", "translatex()", "skew()", "scaley(x)", "matrix(1 0 0 1 0)", "rotate(1e999)"],
-    "paint": ["rgb(1.5,2,3)", "#12", "rgb(", "url(#nope)", "notacolor", "#ggg", "rgb(1,2)", "hsl(1,2,3)", "rgb(1,2,3,4,5)", "#", "rgba(300,-1,0,x)", "hsl(a,50%,50%)", ""],
-    "length": ["abc", "1e", "--5", "5 5", "1e999", "", "12qq", "NaN", "inf", "-", ".", "1..2", "5%%"],
+    "paint": ["rgb(1e999%,0%,0%)", "rgba(1,2,3,1e999)", "hsl(1e999,50%,50%)", "rgb(-1e999%,200%,50%)", "rgb(1.5,2,3)", "#12", "rgb(", "url(#nope)", "notacolor", "#ggg", "rgb(1,2)", "hsl(1,2,3)", "rgb(1,2,3,4,5)", "#", "rgba(300,-1,0,x)", "hsl(a,50%,50%)", ""],
+    "length": ["2em", "3ex", "1.5rem", "4vw", "abc", "1e", "--5", "5 5", "1e999", "", "12qq", "NaN", "inf", "-", ".", "1..2", "5%%"],
     "points": ["1,2 3", "a", "1,2,,3", "", "1 2 3 4 5", "1e999,0 2,2", ",,,", "1,2;3,4"],
     "viewBox": ["0 0 0 0", "a b c d", "1 2 3", "", "0 0 -5 -5", "0,0,10", "1e999 0 1 1", "0 0 10 0"],
     "d": ["M 0,0 L 10,10 z 5", "M 0,0 1 z", "M 3,3 L 5,5 L 9,1 L", "M 1,1 C 1,1 2,2 z 3", "M0,0 Q 1,1 z 7 L 2,2", "M 2,2 L 4,4 T", "M 1 2 L", "L 5 5", "M 1 1 A 1 1 0 2 0 3 3", "M0,0 h", "z", "Q 1 1 2 2", "M 1 2 C 3", "M 1 2 X 4", "h 5", "a 1 1 0 0 1 5 5", "M 1", "t 1 1", "M0,0 A 1 z", "m", "M 1 2 L 3 4 5", "é", "M 1e999 0 L 1 1"],
-    "stroke-width": ["abc", "-1", "1e999", "", "1 2", "5%%"],
+    "stroke-width": ["abc", "-1", "1e999", "", "1 2", "5%%", "2em"],
+    "opacity": ["inf", "1e999", "-1e999", "abc", "nan", "", "1,5", "200%"],
 }
-LENGTH_ATTRS = {"rect": ["x", "y", "width", "height", "rx", "ry"], "circle": ["cx", "cy", "r"], "ellipse": ["cx", "cy", "rx", "ry"], "line": ["x1", "y1", "x2", "y2"], "use": ["x", "y"], "svg": ["x", "y", "width", "height"]}
+LENGTH_ATTRS = {"text": ["x", "y"], "rect": ["x", "y", "width", "height", "rx", "ry"], "circle": ["cx", "cy", "r"], "ellipse": ["cx", "cy", "rx", "ry"], "line": ["x1", "y1", "x2", "y2"], "use": ["x", "y"], "svg": ["x", "y", "width", "height"]}
 
 
 def decode(d):
     doc = docgen.build_doc(d, {"max_elements": 16})
     root = doc["root"]
+    # text is part of the vocabulary too: it is not a shape (it never appears among the compared shapes) but it is parsed,
+    # painted and transformed like one
+    for k in range(d.choice([0, 0, 1, 1, 2])):
+        t = {"tag": "text", "id": "t%d" % k, "attrs": {"x": docgen.fmtn(docgen.num(d, 0, 50)), "y": docgen.fmtn(docgen.num(d, 0, 50)), "fill": d.choice(docgen.PALETTE)}, "children": [], "cls": None}
+        holders = [n for n, _ in docgen.walk(root) if n["tag"] in ("svg", "g")]
+        h = d.choice(holders)
+        h["children"].insert(d.below(len(h["children"]) + 1), t)
     nodes = [(n, parents) for n, parents in docgen.walk(root) if n["tag"] != "defs"]
     faults = []
     for _ in range(d.choice([1, 1, 1, 2, 2, 3])):
         n, parents = d.choice(nodes)
         tag = n["tag"]
-        kinds = ["transform", "paint", "stroke-width"]
+        kinds = ["transform", "paint", "stroke-width", "opacity"]
         if tag in LENGTH_ATTRS:
             kinds += ["length", "length"]
         if tag in ("polyline", "polygon"):
@@ -99,6 +107,11 @@ def decode(d):
             attr = d.choice(LENGTH_ATTRS[tag])
         elif kind == "paint":
             attr = d.choice(["fill", "stroke"])
+        elif kind == "opacity":
+            attr = d.choice(["fill-opacity", "stroke-opacity", "opacity"])
+            if attr != "opacity" and d.bool():
+                # (the opacity only matters when there is a paint to fold it into)
+                n["attrs"].setdefault("fill" if attr == "fill-opacity" else "stroke", d.choice(docgen.PALETTE))
         else:
             attr = kind
         faults.append([n["id"], attr, d.choice(BAD[kind]), kind])
@@ -205,7 +218,7 @@ def _snapshot(e):
     stroke = None if (e.stroke is None or e.stroke.value is None) else e.stroke.value
     m = e.transform
     det = abs(float(m.a) * float(m.d) - float(m.b) * float(m.c))
-    return {"id": e.id, "pts": pts, "fill": fill, "stroke": stroke, "width": e.stroke_width * (det ** 0.5) if e.stroke_width is not None else None}
+    return {"id": e.id, "pts": pts, "fill": fill, "stroke": stroke, "width": e.stroke_width * (det ** 0.5) if isinstance(e.stroke_width, (int, float)) else (None if e.stroke_width is None else str(e.stroke_width))}
 
 
 def same(a, b):
@@ -213,7 +226,10 @@ def same(a, b):
         return False
     if a["id"] != b["id"] or a["fill"] != b["fill"] or a["stroke"] != b["stroke"]:
         return False
-    if (a["width"] is None) != (b["width"] is None) or (a["width"] is not None and abs(a["width"] - b["width"]) > 1e-9 * max(abs(a["width"]), 1e-3)):
+    if isinstance(a["width"], str) or isinstance(b["width"], str):  # an unresolved stroke width (only an offender can have one)
+        if a["width"] != b["width"]:
+            return False
+    elif (a["width"] is None) != (b["width"] is None) or (a["width"] is not None and abs(a["width"] - b["width"]) > 1e-9 * max(abs(a["width"]), 1e-3)):
         return False
     if [k for k, _ in a["pts"]] != [k for k, _ in b["pts"]]:
         return False
